@@ -354,6 +354,15 @@ class RTCIceTransport(AsyncIOEventEmitter):
         if self.state != "closed":
             self.__setState("closed")
             await self._connection.close()
+
+            # aioice only cancels its connectivity checks at the end of
+            # connect(), which may have been interrupted or still be running
+            checks = [
+                pair.task for pair in self._connection._check_list if pair.task
+            ]
+            for check in checks:
+                check.cancel()
+            await asyncio.gather(*checks, return_exceptions=True)
             if self.__monitor_task is not None:
                 await self.__monitor_task
                 self.__monitor_task = None
